@@ -13,7 +13,11 @@ From BB Require Import BN Brute SpaceFacts TrapFacts PercolateFacts AttractorFac
   Strict PetriNet Control Meta FilterFacts PetriNetFacts TrappistFacts DiagramStruct DiagramSem1 DiagramCache
   DiagramDepth DiagramComplete Termination ControlFacts MetaFacts Candidates StrictFacts MinExpandFacts CandidatesFacts SymbolicTest SymbolicTestFacts Signed ReductionFacts ControlFacts2 Main Blocks BlocksFacts ObsFacts OwnerFacts CandidatesTerm
   PartialOwner BlockMath BlockComplete ASeeds ASeedsFacts LogChecks SkipRule SkipRuleFacts Names NamesFacts Perm PermFacts SCC SCCFacts SCCStruct ControlFacts3 SCCTerm FilterSym Main2 StrategyFacts ControlFacts4 SkipRuleFacts2 SCCComplete SCCAttr BlockComplete2 ControlFacts5 Iso SkipSem ControlFacts6.
-From BB Require Import PyLib PyLibSd PySrcSdBase PySrcSd PySrcSdFacts PyLibSd PySrcSdBase PySrcSdTarget PySrcSdTargetFacts PyLib PyLibSd PyLibCore PyLibSd2 PySrcSdBase PySrcSdMin PySrcSdMinFacts Candidates Blocks ASeeds PySrcSdASeeds PySrcSdASeedsFacts.
+From BB Require Import PyLib PyLibSd PySrcSdBase PySrcSd PySrcSdFacts PyLibSd PySrcSdBase PySrcSdTarget PySrcSdTargetFacts PyLib PyLibSd PyLibCore PyLibSd2 PySrcSdBase PySrcSdMin PySrcSdMinFacts Candidates Blocks ASeeds PySrcSdASeeds PySrcSdASeedsFacts PyLib PyLibSd PyLibCore PyLibSd2 PyLibScc PySrcSdBase PySrcSdScc PySrcSdSccFacts Control PyLibControl PySrcSdSccMain PySrcSdSccMainFacts PyLibBlocks PySrcSdBlocks PySrcSdBlocksFacts PySrcApi PySrcEndToEndScc PySrcEndToEndBlocks.
+
+(* C15 for the SOURCE TEXT of the default strategy: whatever the generated expand_block returns -- True, False at a size limit, the motif-limit error, out of fuel -- the diagram it leaves is well-formed and extends the one it started from *)
+Theorem C15_source_text_expand_block_any_result : forall (fuel : nat) (N : net) (cfg : config) (d : sd) (tape : list bool) (maa : bool) (sz : option nat) (opt exact : bool), SWF N d -> SWF N (flow_sd (py_api_expand_block fuel N cfg d tape maa sz opt exact)) /\ extends d (flow_sd (py_api_expand_block fuel N cfg d tape maa sz opt exact)).
+Proof. exact py_api_expand_block_any_result. Qed.
 
 (* translator tie: the limit handling of the strategy drivers as written in the source (expand_to_target, expand_bfs, expand_dfs, expand_minimal_spaces) is the model's *)
 Theorem C15_source_expand_to_target : forall (fuel : nat) (N : net) (cfg : config) (d : sd) (target : space) (size_limit : option nat), py_expand_to_target fuel N cfg d target size_limit = expand_to_target fuel N cfg d target size_limit.
@@ -71,6 +75,7 @@ Proof. exact expand_block_MinFound_from. Qed.
 Theorem C15_block_expansion_resumes_attractors : forall (fuel : nat) (N : net) (cfg : config) (d d' : sd) (opt : bool) (sz : option nat) (tape : list bool), 1 <= max_motifs cfg -> PlainInv N d -> expand_block fuel N cfg d true opt sz tape = (d', RBool true) -> clean_log_ok N (fst (expand_block_log fuel N cfg d true opt sz tape)) -> AttrServed N d'.
 Proof. exact expand_block_AttrServed_from. Qed.
 
+Print Assumptions C15_source_text_expand_block_any_result.
 Print Assumptions C15_source_expand_to_target.
 Print Assumptions C15_source_expand_bfs.
 Print Assumptions C15_source_expand_dfs.
